@@ -4,6 +4,7 @@ import (
 	"bytes"
 	"fmt"
 	"io"
+	"math"
 	"math/big"
 	"math/bits"
 )
@@ -84,7 +85,11 @@ func (p *berTLVPrefixer) DecodeLength(maxLen int, data []byte) (int, int, error)
 	}
 	read += len(length)
 
-	dataLen := int(new(big.Int).SetBytes(length).Int64())
+	bigLen := new(big.Int).SetBytes(length)
+	if !bigLen.IsInt64() || bigLen.Int64() > math.MaxInt {
+		return 0, read, fmt.Errorf("TLV length does not fit: %d length bytes", len(length))
+	}
+	dataLen := int(bigLen.Int64())
 
 	// checking maxLen for a 0 is a way to disable check and also support
 	// backwards compatibility with the old contract that didn't have maxLen
